@@ -80,7 +80,7 @@ def run(ctx):
         ctx.check(allok, R1, 'check_limits[%s]:loop-exit-implies-room' % t, 'the loop can end with size >= limit although limit > 0 (off-by-one in the limit test?)', f.loc(L),
                   detail={'goal': 'limit>0 => size+1<=limit', 'cases': samples})
         # break exits only when nothing is left to evict
-        g_empty = q.call_gate(f, lambda i: q.short_of(f.callee(i)) == 'empty' and (q.obj_field(f, i) or '').endswith('mem_cache::lru'), True)
+        g_empty = q.empty_gate(f, lambda i: (q.obj_field(f, i) or '').endswith('mem_cache::lru'))
         brk = [j for j in f.walk(f.N(L)['body']) if f.N(j)['k'] in ('BreakStmt', 'ReturnStmt')]
         for k, b in enumerate(brk):
             ctx.check(f.only_through(b, g_empty), R1, 'check_limits[%s]:break#%d-only-when-lru-empty' % (t, k), 'eviction loop can stop while entries remain', f.loc(b))
@@ -99,8 +99,9 @@ def run(ctx):
 
         def not_expired(atom, pol):
             n = f.N(atom)
-            if n['k'] == 'CXXMemberCallExpr' and q.short_of(f.callee(atom)) == 'empty' and (q.obj_field(f, atom) or '').endswith('mem_cache::timeout'):
-                return pol is True
+            em = q.emptiness(f, atom, pol)
+            if em is not None and (q.obj_field(f, em[0]) or '').endswith('mem_cache::timeout'):
+                return em[1]
             if n['k'] == 'BinaryOperator' and n.get('op') in ('<', '<=', '>', '>='):
                 l, r = n['ch']
                 tl = any((q.obj_field(f, j) or '').endswith('mem_cache::timeout') for j in f.calls(l))
